@@ -453,7 +453,7 @@ func TestC16Ctor(t *testing.T) {
 				return nil
 			}
 			defer func() {
-				cl.Close()
+				cl.Abort()
 				if err := srv.Stop(10 * time.Second); err != nil {
 					st.Class("stop-problem")
 				}
